@@ -157,7 +157,9 @@ func (s *Sched) handle(ev parkEv) {
 	t := ev.t
 	if ev.kind == kDone {
 		t.done = true
-		s.live--
+		if t.harness {
+			s.live--
+		}
 		return
 	}
 	if ev.kind == kBorn && !t.harness {
@@ -351,6 +353,20 @@ func (s *Sched) Drain(maxSteps int) {
 		t.resume <- -1
 	}
 	s.parked = nil
+}
+
+// LiveSpawned names the goroutines started by instrumented code (not harness
+// tasks) that have been born and have not ended, with the site of the go
+// statement that started them.  Root context, when the scheduler is settled.
+func (s *Sched) LiveSpawned() []string {
+	var out []string
+	for _, t := range s.all {
+		if !t.harness && !t.done {
+			out = append(out, t.Name+"<-"+t.Origin)
+		}
+	}
+	sort.Strings(out)
+	return out
 }
 
 // Sleep blocks the calling task for d of simulated time (a durable block; the
